@@ -169,4 +169,118 @@ theorem span_append_le (c : CClass) (w rest : List Char)
     simp only [List.cons_append, span_cons, List.length_cons]
     split <;> omega
 
+theorem drop_span (c : CClass) (t : List Char) : t.drop (span c t) = t.dropWhile c.mem := by
+  induction t with
+  | nil => rfl
+  | cons x t ih =>
+    rw [span_cons, List.dropWhile_cons]
+    split
+    · simpa using ih
+    · rfl
+
+theorem takeWhile_append_full (c : CClass) (w rest : List Char) (hw : w.all c.mem = true)
+    (hrest : ∀ x, rest.head? = some x → c.mem x = false) : (w ++ rest).takeWhile c.mem = w := by
+  induction w with
+  | nil =>
+    cases rest with
+    | nil => rfl
+    | cons x t => simp [hrest x rfl]
+  | cons a w ih =>
+    simp only [List.all_cons, Bool.and_eq_true] at hw
+    simp [hw.1, ih hw.2]
+
+/-- `S* U S*` with `U ⊆ S` in front of something that cannot fail: the first star takes the
+whole `S`-run, backs off to the last `U` character, and the second star takes the rest of
+the run — so the match is the whole run iff the run contains a `U` character. -/
+theorem star_mid_star (S U : CClass) (hsub : ∀ x, U.mem x = true → S.mem x = true)
+    (kf : List Char → MRes) (hkf : ∀ t, kf t ≠ .fail) : ∀ t : List Char,
+    matchK (.rep (.chr S) 0 none) t
+        (fun t' => matchK (.chr U) t' (fun t'' => matchK (.rep (.chr S) 0 none) t'' kf)) =
+      if (t.takeWhile S.mem).any U.mem then kf (t.dropWhile S.mem) else .fail := by
+  intro t
+  induction t with
+  | nil => rw [rep_chr_nil]; simp
+  | cons x t ih =>
+    rw [rep_chr_cons_zero]
+    simp only [Option.map_none, ne_eq, reduceCtorEq, not_false_eq_true, true_and]
+    by_cases hS : S.mem x = true
+    · simp only [hS, if_true, List.takeWhile_cons, List.any_cons, List.dropWhile_cons]
+      rw [ih]
+      by_cases hany : (t.takeWhile S.mem).any U.mem = true
+      · simp only [hany, if_true, Bool.or_true]
+        have := hkf (t.dropWhile S.mem)
+        split
+        · rename_i hf; exact absurd hf this
+        · rfl
+      · simp only [hany, Bool.false_eq_true, if_false, matchK_chr_cons, Bool.or_false]
+        by_cases hU : U.mem x = true
+        · simp only [hU, if_true]
+          rw [rep_chr_zero_nofail S kf hkf, takeUpTo, drop_span]
+        · simp [hU]
+    · have hU : U.mem x = false := by
+        cases h : U.mem x with
+        | false => rfl
+        | true => exact absurd (hsub x h) hS
+      simp [hS, hU]
+
+/-- The text of a literal equals the run iff the literal matches with the run's length. -/
+theorem lit_full (l w rest : List Char) :
+    (l.isPrefixOf (w ++ rest) = true ∧ l.length = w.length) ↔ l = w := by
+  constructor
+  · rintro ⟨hp, hl⟩
+    have := List.prefix_iff_eq_take.mp (List.isPrefixOf_iff_prefix.mp hp)
+    rw [this, hl]; simp
+  · rintro rfl
+    exact ⟨List.isPrefixOf_iff_prefix.mpr (List.prefix_append _ _), rfl⟩
+
+theorem litThen_star_value (pre : List Char) (c : CClass) (s : List Char) :
+    matchLen (litThen pre (.rep (.chr c) 0 none)) s =
+      if pre.isPrefixOf s then .ok (pre.length + span c (s.drop pre.length)) else .fail := by
+  rw [matchLen_eq, matchK_litThen]
+  split
+  · rename_i h
+    have hl : pre.length ≤ s.length := (List.isPrefixOf_iff_prefix.mp h).length_le
+    rw [kOff_drop' 0 s pre.length hl, star_end]; simp [takeUpTo]
+  · rfl
+
+theorem litThen_plus_value (pre : List Char) (c : CClass) (s : List Char) :
+    matchLen (litThen pre (.rep (.chr c) 1 none)) s =
+      if pre.isPrefixOf s ∧ 1 ≤ span c (s.drop pre.length) then
+        .ok (pre.length + span c (s.drop pre.length)) else .fail := by
+  rw [matchLen_eq, matchK_litThen]
+  by_cases h : pre.isPrefixOf s = true
+  · have hl : pre.length ≤ s.length := (List.isPrefixOf_iff_prefix.mp h).length_le
+    simp only [h, if_true, true_and]
+    rw [kOff_drop' 0 s pre.length hl, plus_end]; simp
+  · simp [h]
+
+/-- A literal prefix followed by a class star matches the whole run iff the run starts
+with the prefix and continues in the class. -/
+theorem litThen_star_full (pre : List Char) (c : CClass) (w rest : List Char)
+    (hrest : ∀ x, rest.head? = some x → c.mem x = false) :
+    (matchLen (litThen pre (.rep (.chr c) 0 none)) (w ++ rest) = .ok w.length) ↔
+      (pre.isPrefixOf w = true ∧ (w.drop pre.length).all c.mem = true) := by
+  rw [litThen_star_value]
+  constructor
+  · intro h
+    split at h
+    · rename_i hp
+      simp only [MRes.ok.injEq] at h
+      have hle : pre.length ≤ w.length := by omega
+      have hpw : pre.isPrefixOf w = true := by
+        have := List.prefix_iff_eq_take.mp (List.isPrefixOf_iff_prefix.mp hp)
+        rw [List.take_append_of_le_length hle] at this
+        exact List.isPrefixOf_iff_prefix.mpr (this ▸ List.take_prefix _ _)
+      refine ⟨hpw, ?_⟩
+      rw [List.drop_append_of_le_length hle] at h
+      rw [← span_append_full c _ rest hrest]
+      simp only [List.length_drop]; omega
+    · cases h
+  · rintro ⟨hp, hall⟩
+    have hle : pre.length ≤ w.length := (List.isPrefixOf_iff_prefix.mp hp).length_le
+    have hps : pre.isPrefixOf (w ++ rest) = true :=
+      List.isPrefixOf_iff_prefix.mpr ((List.isPrefixOf_iff_prefix.mp hp).trans (List.prefix_append _ _))
+    rw [if_pos hps, List.drop_append_of_le_length hle, (span_append_full c _ rest hrest).mpr hall]
+    simp only [List.length_drop, MRes.ok.injEq]; omega
+
 end Emboss.Regex
